@@ -12,6 +12,7 @@ THEOREMS = ["Poor.Multipart.extract_aux", "Poor.Multipart.at_boundary", "Poor.Mu
             "Poor.Multipart.parseHeaderLine_render", "Poor.Multipart.readParts_step", "Poor.Multipart.parse_encode",
             "Poor.Props.C08.C08_extract", "Poor.Props.C08.BOk_of_boundary", "Poor.Props.C08.C08_memory",
             "Poor.Multipart.extract_auxG", "Poor.Multipart.lfContract", "Poor.Multipart.cachedContract",
+            "Poor.Multipart.skip_preambleG", "Poor.Props.C08.C08_preamble",
             "Poor.Multipart.parse_encodeG", "Poor.Props.C08.C08_any_reader", "Poor.Props.C08.C08_cached",
             "Poor.Props.C08.C08_cached_fresh", "Poor.Props.C08.C08_delivery_independent"]
 TRUSTED_BASE = ["model Poor.Multipart hand-written from fieldstorage.py:507-790; email.FeedParser is modelled as a "
